@@ -1,5 +1,6 @@
 import Bgpfu.Drive.Framing
 import Bgpfu.Drive.Xml
+import Bgpfu.Drive.Daemon
 /-! `modeld`: one request per line on stdin, one answer per line on stdout.
 A line is `<op> <arg>…` separated by single spaces; unknown ops / malformed args answer `bad-op`. -/
 
@@ -8,6 +9,7 @@ def dispatch (ws : List String) : String :=
     match ws with
     | "frame" :: rest => Framing.drive rest
     | "xml" :: rest => Xml.drive rest
+    | "daemon" :: rest => Daemon.drive rest
     | _ => none
   r.getD "bad-op"
 
